@@ -69,6 +69,36 @@ for n in sorted(os.listdir(dr)):
         per.append(f"{n[:-5]}:{k}")
 out.append(f"### 0.5 Sensitivity drills ({tot} recorded planted bugs, all caught by the quick tier when recorded)\n")
 out.append("`tools/run_drills.py <ID>` re-runs them against scratch copies of /repo/src. Per property: " + ", ".join(per) + ".\n")
+
+# ---- per-property summary
+import importlib, sys
+sys.path.insert(0, VERIF); sys.path.insert(0, os.path.join(VERIF, "vendor"))
+out.append("### 0.6 Per-property summary of the registered checks (generated from each check's META and its last evidence file)\n")
+out.append("| property | deciding method | what the quick tier covers (from META) | last evidence: evaluations / distinct non-trivial | drills | seeded caught |")
+out.append("|---|---|---|---|---|---|")
+seeded_by = {}
+for n, prop, summ, needs, caught, how, note in rows:
+    a = seeded_by.setdefault(prop, [0, 0]); a[1] += 1; a[0] += 1 if caught else 0
+for n in sorted(os.listdir(os.path.join(VERIF, "checks"))):
+    if not (n.endswith(".py") and n[0] == "c" and n[1:3].isdigit()):
+        continue
+    try:
+        M = importlib.import_module("checks." + n[:-3]).META
+    except Exception as e:
+        continue
+    pid = M["property"]
+    ev = {}
+    ep = os.path.join(VERIF, "evidence", pid + ".json")
+    if os.path.exists(ep):
+        ev = json.load(open(ep))
+    cov = ev.get("coverage", {})
+    nd = 0
+    dp = os.path.join(VERIF, "drills", pid + ".json")
+    if os.path.exists(dp):
+        nd = len(json.load(open(dp)))
+    sc = seeded_by.get(pid, [0, 0])
+    out.append(f"| {pid} | {esc(M.get('technique',''))[:160]} | {esc(M.get('level_text',''))[:420]} | {ev.get('tier','?')}: {cov.get('evaluations','?')} / {cov.get('distinct_nontrivial','?')} | {nd} | {sc[0]}/{sc[1]} |")
+out.append("")
 text = "\n".join(out)
 dp = os.path.join(VERIF, "DESIGN.md")
 s = open(dp).read()
